@@ -21,6 +21,22 @@ from vlib import ToolError, log
 PROP = "C01"
 
 
+# hand-written additions to the generated programs: types generic over const parameters only, at several values in
+# one process (their definition depends on the value; serde has no impl for [T; N], hence serialize_with)
+EXTRA_PRELUDE = ("pub fn ser_arr<S: serde::Serializer, const N: usize>(a: &[u8; N], s: S) -> Result<S::Ok, S::Error> { s.collect_seq(a.iter()) } "
+                 "#[derive(TS, Serialize)] pub struct CBlock<const N: usize> { #[serde(serialize_with = \"ser_arr\")] pub data: [u8; N], pub n: i32 } "
+                 "#[derive(TS, Serialize)] #[serde(tag = \"kind\")] pub enum CFrame<const N: usize> { Data { #[serde(serialize_with = \"ser_arr\")] payload: [u8; N] }, Eof } "
+                 "#[derive(TS, Serialize)] pub struct CUses { #[ts(inline)] pub a: CBlock<1>, #[ts(inline)] pub b: CBlock<3>, #[serde(flatten)] pub c: CBlock<2> }")  # (never by name: the name does not say which N)
+EXTRAS = [("CB2", "CBlock<2>", ["CBlock::<2> { data: [1, 2], n: 0 }"]), ("CB4", "CBlock<4>", ["CBlock::<4> { data: [1, 2, 3, 4], n: 1 }"]),
+          ("CB0", "CBlock<0>", ["CBlock::<0> { data: [], n: 2 }"]),
+          ("CF1", "CFrame<1>", ["CFrame::<1>::Data { payload: [7] }", "CFrame::<1>::Eof"]), ("CF3", "CFrame<3>", ["CFrame::<3>::Data { payload: [7, 8, 9] }"]),
+          ("CU", "CUses", ["CUses { a: CBlock::<1> { data: [1], n: 0 }, b: CBlock::<3> { data: [1, 2, 3], n: 1 }, c: CBlock::<2> { data: [5, 6], n: 2 } }"])]
+
+
+def extra_units():
+    return [corpus.Unit(n, "pub type %s = %s;" % (n, ty), vals, serde=True, deser=False, meta={"extra": ty, "group": "CBlock", "slice": "extra"}) for n, ty, vals in EXTRAS]
+
+
 def build_units(tier):
     dcfg = os.path.join(vlib.TMP, "derive-cfg.json")
     derivelib.build_config(dcfg)
@@ -33,12 +49,13 @@ def build_units(tier):
         u.meta["slice"] = sl
         u.meta["pred"] = pred
         units.append(u)
+    units += extra_units()
     return units, st
 
 
 def observe(tier):
     units, st = build_units(tier)
-    c = corpus.Corpus("bind-" + tier, units)
+    c = corpus.Corpus("bind-" + tier, units, extra_prelude=EXTRA_PRELUDE)
     obs = c.observe()
     return units, obs, c, st
 
@@ -52,7 +69,7 @@ def run(tier):
     counts = {"programs": 0, "rejected_at_compile_time": len(c.rejected), "decl_panics": 0, "decl_unparsable": 0,
               "ser_errors": 0, "values_adjudicated": 0}
     for u in units:
-        if "prog" not in u.meta or u.name in c.rejected:
+        if ("prog" not in u.meta and "extra" not in u.meta) or u.name in c.rejected:
             continue
         o = obs.get(u.name)
         if o is None:
@@ -61,7 +78,7 @@ def run(tier):
         info = o["info"]
         if "ok" not in info["decl"] or "ok" not in info["name"]:
             counts["decl_panics"] += 1
-            d = bindlib.prog_descriptor(PROP, u.meta["slice"], u.meta["prog"])
+            d = descriptor(u)
             d["tag"] = "no_declaration_decl_panics"
             d["message"] = (info["decl"].get("panic") or info["name"].get("panic") or "")[:50]
             v.fail(d, {"item": u.src, "decl": info["decl"], "name": info["name"]})
@@ -92,9 +109,9 @@ def run(tier):
     del conf["compared"]
     for i in sorted(bad):
         u, k, js, decl = meta[i - 1]
-        d = bindlib.prog_descriptor(PROP, u.meta["slice"], u.meta["prog"])
+        d = descriptor(u)
         d["json_kind"] = classify_json(js)
-        d.update(hints(u.meta["prog"], js, decl))
+        d.update(hints(u.meta.get("prog"), js, decl))
         v.fail(d, {"item": u.src, "value": u.samples[k] if k < len(u.samples) else None, "json": js, "decl": decl})
     rc = v.finish()
     samples = [{"item": m[0].src[:200], "json": m[2], "decl": m[3][:200]} for m in meta[:: max(1, len(meta) // 6)][:6]]
@@ -112,6 +129,12 @@ def run(tier):
                          "the TypeScript parser (lib/tsparse.py) is trusted to read the declarations; unreadable declarations are C04's business"],
                         time.time() - t0, len(v.violations))
     return rc
+
+
+def descriptor(u):
+    if "extra" in u.meta:
+        return {"prop": PROP, "slice": "extra", "type": u.meta["extra"]}
+    return bindlib.prog_descriptor(PROP, u.meta["slice"], u.meta["prog"])
 
 
 def optional_keys(t, out):
